@@ -34,6 +34,13 @@ type Prog struct {
 	heapVarTypes map[string]types.Type
 	autoContracts map[string]*Contract
 	boxedCache map[*FuncInfo]map[types.Object]bool
+	opts       lowerOpts
+}
+
+// lowerOpts: options of a lowering run (replay search uses unrolled loops and a concrete decoder).
+type lowerOpts struct {
+	unroll     int  // >0: unroll loops this many times instead of cutting them (bounded search for inputs only)
+	concretePD bool // treat packetDecoder parameters as *realDecoder
 }
 
 type FuncInfo struct {
